@@ -239,7 +239,17 @@ class Parser:
                     ps.append(self.pattern())
                     if self.atop(','): self.next()
                 self.next(); return ('pctor', path, ps)
-            if self.atop('{'): raise Unsupported("struct pattern")
+            if self.atop('{') and path[-1][0].isupper():
+                # struct pattern `Path { field: pat, field, .. }`
+                self.next(); fps = []
+                while not self.atop('}'):
+                    if self.atop('..'): self.next(); continue
+                    f = self.eat('id')[1]
+                    if self.atop(':'):
+                        self.next(); fps.append((f, self.pattern()))
+                    else: fps.append((f, ('pbind', f)))
+                    if self.atop(','): self.next()
+                self.next(); return ('pstruct', path, fps)
             if len(path) == 1 and not path[0][0].isupper(): return ('pbind', path[0])
             return ('ppath', path)
         raise Unsupported(f"pattern starting with {x[1]!r}")
@@ -417,6 +427,10 @@ class Parser:
                     if self.atop(';'): raise Unsupported("vec![x; n]")
                     if self.atop(','): self.next()
                 self.next(); return ('veclit', es)
+            if self.atop('!') and path == ['debug_assert'] and self.atop('(', 1):
+                self.next(); self.next(); c = self.expr()
+                if self.atop(','): raise Unsupported("debug_assert! with a message")
+                self.eat('op', ')'); return ('dbgassert', c)
             if self.atop('!'): raise Unsupported("macro " + '::'.join(path) + "!")
             if self.atop('{') and not nostruct and path[-1][0].isupper():
                 self.next(); fields = []
